@@ -45,7 +45,9 @@ Relations ==
       LET outN == Run(c, b1, FALSE, {})
           outS == Run(c, b1, TRUE, {})  outS2 == Run(c, b2, TRUE, {})
           outR == Run(c, b1, FALSE, c.R)  outR2 == Run(c, b2, FALSE, c.R)
+          outSR == Run(c, b1, TRUE, c.R)  outSR2 == Run(c, b2, TRUE, c.R)      \* both switches at once
       IN /\ StrictFilters(outN, outS)
+         /\ StrictFilters(outR, outSR) /\ ClockFree(outSR, outSR2) /\ outSR = outS
          /\ ClockFree(outS, outS2)
          /\ RequireFilters(outN, outR)
          /\ RequireClockFree(outR, outR2, c.R)
@@ -55,5 +57,6 @@ Relations ==
 StrictNeedsAllParts ==
   c.stage = 2 /\ c.unamb /\ c.o \in {"MDY", "DMY"} =>
     /\ StatesAll(Run(c, B1, TRUE, {}), c.ps)
+    /\ StatesAll(Run(c, B1, TRUE, c.R), c.ps)
     /\ RequireStates(Run(c, B1, FALSE, c.R), c.ps, c.R)
 =============================================================================
